@@ -44,10 +44,10 @@ func must3(s sdf.SDF3, err error) sdf.SDF3 {
 }
 
 func f2(name, group string, mk func(e *Env) (sdf.SDF2, error)) Family {
-	return Family{name, group, func(e *Env) (sdf.SDF2, sdf.SDF3, error) { s, err := mk(e); return s, nil, err }}
+	return Family{name, group, func(e *Env) (sdf.SDF2, sdf.SDF3, error) { resetRand(); s, err := mk(e); return s, nil, err }}
 }
 func f3(name, group string, mk func(e *Env) (sdf.SDF3, error)) Family {
-	return Family{name, group, func(e *Env) (sdf.SDF2, sdf.SDF3, error) { s, err := mk(e); return nil, s, err }}
+	return Family{name, group, func(e *Env) (sdf.SDF2, sdf.SDF3, error) { resetRand(); s, err := mk(e); return nil, s, err }}
 }
 
 func star(n int, r0, r1 float64) []v2.Vec {
@@ -166,7 +166,7 @@ func All() []Family {
 		}),
 		f2("hex2d", "part", func(e *Env) (sdf.SDF2, error) { return obj.Hex2D(1, 0.1) }),
 		f2("washer2d", "part", func(e *Env) (sdf.SDF2, error) {
-			return obj.Washer2D(&obj.WasherParms{InnerRadius: 0.5, OuterRadius: 1.2, Remove: 0.2})
+			return obj.Washer2D(&obj.WasherParms{InnerRadius: 0.5, OuterRadius: 1.2})
 		}),
 		// ---- 3D primitives
 		f3("box3d", "primitive", func(e *Env) (sdf.SDF3, error) { return sdf.Box3D(v3.Vec{X: 2, Y: 1.5, Z: 1}, 0.2) }),
